@@ -46,6 +46,8 @@ CLI = ("import sys; sys.path.insert(0, %r); import warnings; warnings.filterwarn
 
 
 def cfg_args(cfg, base):
+    if cfg == "excl":       # exclusion patterns that match something in several inputs
+        return ["-e", "zz.cmake", "-e", "o1.cmake", "-e", "deep/", "-e", ""]
     return ["-s", os.path.join(base, "strip.yaml")] if cfg == "strip" else []
 
 
@@ -226,7 +228,7 @@ def run(ctx):
     R2 = reference("4242")
     if R != R2:
         ctx.violation({"kind": "reference"}, compare(R2, R, "reference under hash seed 4242"), cls="bytes hash-seed")
-    R = {"default": R, "strip": reference("0", "strip")}
+    R = {"default": R, "strip": reference("0", "strip"), "excl": reference("0", "excl")}
     names = list(INPUTS)
     n = 3 if quick else 4
     hjobs = []
@@ -239,6 +241,8 @@ def run(ctx):
                     hjobs.append((list(h), mode, cwd))
                 if k <= 3:      # the same history under non-default settings (strip patterns, separator)
                     hjobs.append((list(h), mode, "work", "strip"))
+                if 2 <= k <= 3 and mode == "one-call":
+                    hjobs.append((list(h), mode, "work", "excl"))
     ctx.sweep(functools.partial(run_history, RR=R), hjobs, space="run histories within one process", selftest=3)
     ejobs = []
     for x in names:
@@ -261,7 +265,7 @@ def run(ctx):
 
 
 def replay(case):
-    R = {"default": reference(), "strip": reference("0", "strip")}
+    R = {"default": reference(), "strip": reference("0", "strip"), "excl": reference("0", "excl")}
     if isinstance(case, dict):
         return compare(reference("4242"), R["default"], "reference under hash seed 4242") if case.get("kind") == "reference" else []
     if isinstance(case, int):
